@@ -53,6 +53,11 @@ static char * read_file(const char * path, size_t * n) {
 	return b;
 }
 
+static void pool_fields(void) {
+	long s, nx; pool_state(&s, &nx);
+	ev_int("pslabs", s); ev_int("pnext", nx);
+}
+
 static void counters_reset(void) { g_wrap_alloc_count = g_wrap_rng_count = g_wrap_rand_count = g_wrap_srand_count = 0; }
 
 static void log_conv(const char * fam, const char * srcid, long fmt, unsigned long ext, long lang,
@@ -63,19 +68,24 @@ static void log_conv(const char * fam, const char * srcid, long fmt, unsigned lo
 	ev_bool("srcsame", srcsame); ev_bool("wrote", wrote);
 	ev_int("rng", g_wrap_rng_count); ev_int("rand", g_wrap_rand_count); ev_int("srand", g_wrap_srand_count); ev_int("allocs", g_wrap_alloc_count);
 	diag_field();
+	pool_fields();
 	if (g_wantout && out) ev_bytes("out", out, outlen);
 	ev_end();
 }
 
+static int a0free(cmd_t * c) { return !strcmp(c->argv[0].s, "nopool") || !strcmp(c->argv[1].s, "free"); }
+
 int scen_pool(cmd_t * c) {
 	const char * n = c->name;
-	if (!strcmp(n, "pinit")) { p_init(); pool_count++; pool_exists = 1; ev_begin("pool"); ev_str("op", "init"); ev_int("count", pool_count); ev_end(); return 1; }
-	if (!strcmp(n, "pdrain")) { p_drain(); pool_count--; ev_begin("pool"); ev_str("op", "drain"); ev_int("count", pool_count); ev_end(); return 1; }
-	if (!strcmp(n, "pfree")) { p_free(); if (pool_count == 0) pool_exists = 0; ev_begin("pool"); ev_str("op", "free"); ev_int("count", pool_count); diag_field(); ev_end(); return 1; }
+	if (!strcmp(n, "pinit")) { p_init(); pool_count++; pool_exists = 1; ev_begin("pool"); ev_str("op", "init"); ev_int("count", pool_count); pool_fields(); ev_end(); return 1; }
+	if (!strcmp(n, "pdrain")) { p_drain(); pool_count--; ev_begin("pool"); ev_str("op", "drain"); ev_int("count", pool_count); pool_fields(); ev_end(); return 1; }
+	if (!strcmp(n, "pfree")) { p_free(); if (pool_count == 0) { pool_exists = 0; pool_forget(); } ev_begin("pool"); ev_str("op", "free"); ev_int("count", pool_count); diag_field(); ev_end(); return 1; }
 	if (!strcmp(n, "seg")) {
 		/* standard start of an independent execution: release engines, give the pool a fresh epoch */
 		for (int i = 0; i < MAXENG; i++) if (eng[i].used) { mmd_engine_free(eng[i].e, false); d_string_free(eng[i].d, true); eng[i].used = 0; }
 		while (pool_count > 0) { p_drain(); pool_count--; }
+		if (pool_exists && a0free(c)) { p_free(); pool_exists = 0; pool_forget(); }
+		if (!strcmp(c->argv[0].s, "nopool")) { ev_begin("reset"); ev_str("tag", c->argv[0].s); ev_end(); return 1; }
 		p_init(); pool_count = 1; pool_exists = 1;
 		ev_begin("reset"); ev_str("tag", c->argv[0].s); ev_end();
 		return 1;
@@ -187,7 +197,7 @@ int scen_convert(cmd_t * c) {
 		counters_reset();
 		if (!strcmp(n, "e_parse")) {
 			mmd_engine_parse_string(eng[i].e);
-			ev_begin("eng"); ev_str("op", "parse"); ev_int("eid", i); ev_str("src", eng[i].src); ev_int("allocs", g_wrap_alloc_count); diag_field(); ev_end();
+			ev_begin("eng"); ev_str("op", "parse"); ev_int("eid", i); ev_str("src", eng[i].src); ev_int("allocs", g_wrap_alloc_count); diag_field(); pool_fields(); ev_end();
 			return 1;
 		}
 		char * out = NULL; size_t outlen = 0; DString * res = NULL;
